@@ -467,6 +467,39 @@ def rule_find_split(f, site, depth=0):
     return "private helper: each of its %d callers passes (s, s.find(sep)) — the split-at-found-separator idiom" % len(callers)
 
 
+def rule_layout(f, site):
+    """P0-layout: `bytes_of(fixed)[k..]` with k a constant not larger than the compiler-computed size of the packed
+    fixed-layout struct whose bytes are viewed (its own AsMut<[u8]> impl hands out exactly size_of bytes)."""
+    if site.kind not in ("call:index", "call:index_mut") or len(site.ops) != 2:
+        return None
+    rng = site.ops[1]
+    if rng[0] != "agg" or rng[2] not in ("RangeFrom", "RangeTo"):
+        return None
+    k = const_eval(dict(rng[3]).get("start" if rng[2] == "RangeFrom" else "end", ("?",)))
+    if k is None:
+        return None
+    base = strip_deep(site.ops[0])
+    if base[0] == "mvar":
+        base = strip_deep(base[3])
+    adt = None
+    if base[0] == "agg" and base[1] in f.adts:
+        adt = base[1]
+    else:
+        rb = f.body(site.fn)
+        cand = rb.rec.get("impl_adt") if rb is not None else None
+        ty = site.body.local_ty(base[2]) if base[0] in ("var",) else None
+        if base[0] == "call" and (base[3] or {}).get("name") == "default" or base[0] == "var":
+            adt = cand
+    if not adt or adt not in f.adts:
+        return None
+    rec = f.adts[adt]
+    packed = "pack: Some" in str(rec.get("repr")) and "IS_C" in str(rec.get("repr"))
+    has_view = any(n.startswith("<%s as std::convert::AsMut<[u8]>>::as_mut" % adt) for n in f.bodies)
+    if packed and has_view and rec.get("size") is not None and k <= rec["size"]:
+        return "byte view of the packed struct %s (%d bytes by layout) cut at the constant %d" % (short(adt), rec["size"], k)
+    return None
+
+
 # ---- P1: re-decoding captured data ---------------------------------------------------------------------------
 
 def is_cons_parser(f, res):
@@ -893,6 +926,7 @@ def load_table():
 RULES = [("P0-const", lambda f, s, env: rule_const(s)),
          ("P0-arg", lambda f, s, env: rule_arg_const(s)),
          ("P0-len", lambda f, s, env: rule_len_arith(s)),
+         ("P0-layout", lambda f, s, env: rule_layout(f, s)),
          ("P0-split", lambda f, s, env: rule_find_split(f, s)),
          ("P1-redecode", lambda f, s, env: rule_redecode(f, s, env["ber"], env["memo"])),
          ("P0-absint", lambda f, s, env: rule_absint(f, s))]
